@@ -1080,13 +1080,21 @@ class FusedBlockwiseLayer:
                 holed[ck] = FusedBlockwiseLayer._node_fingerprint(task, {})
         return holed, cout
 
-    @staticmethod
-    def _probe_blocks(numblocks):
+    def _probe_blocks(self, numblocks):
         zero = tuple(0 for _ in numblocks)
         probes = {zero, tuple(n - 1 for n in numblocks)}
+        axis_chunks = self._axis_chunks()
         for i, n in enumerate(numblocks):
             if n > 1:
-                for v in (n - 1, n // 2):
+                sizes = axis_chunks[i] if i < len(axis_chunks) else None
+                if sizes is None or len(set(sizes)) > 1:
+                    # A ragged (or unknown) axis: a block whose size differs can sit
+                    # anywhere (chunks=(2, 1, 2, 2)), and a fused creation op bakes the
+                    # block shape into the subgraph, so every position must be probed.
+                    positions = range(1, n)
+                else:
+                    positions = (n - 1, n // 2)
+                for v in positions:
                     b = list(zero)
                     b[i] = v
                     probes.add(tuple(b))
